@@ -1001,6 +1001,10 @@ class UKF:
         _assert_numerical_iterable(gyr, 'Tri-axial gyroscope sample')
         _assert_numerical_iterable(acc, 'Tri-axial accelerometer sample')
         dt = self.Dt if dt is None else dt
+        a_norm = np.linalg.norm(acc)
+        if not a_norm > 0:
+            # Null (or NaN) accelerometer sample: nothing to correct with. Return the a-priori state.
+            return np.copy(q)
         ## Prediction
         # 1. Generate sigma points
         sigma_points = self.compute_sigma_points(q, self.P)
@@ -1042,7 +1046,7 @@ class UKF:
         kalman_gain = cross_covariance @ np.linalg.inv(predicted_measurement_covariance)
 
         # 8. Compute the innovation (measurement residual)
-        acc_normalized = acc / np.linalg.norm(acc)
+        acc_normalized = acc / a_norm
         innovation = acc_normalized - predicted_measurement_mean
 
         # 9.1. Update state estimation
